@@ -29,12 +29,34 @@ def run(ctx):
     ctx.step(c05.unlink_first, ctx, "C12.erase-next", all_or_nothing=True)
     ctx.step(iters, ctx)
     ctx.step(construct, ctx)
+    ctx.step(atomic_ops_rule, ctx)
     # a traversal is only protected once its handle is in the log: every way of reaching the list through a handle registers
     ctx.step(c05.register, ctx, "C12.register", True, False)
     from . import c13
     ctx.step(c13.uaf, ctx, "C12.uaf", [f for f in ctx.fb.functions(rec=RCU)], floor=10)
     ctx.step(common.atomic_floors, ctx, "C12.orders", [RCU, NODE], floor=20, files=["rcu_list.hpp"])
     ctx.step(common.witnesses, ctx, "C12.witness", ["C12"])
+
+
+def atomic_ops_rule(ctx, rid="C12.atomic"):
+    """each public mutation is ONE critical section of m_write_mutex: an operation composed of several calls of other
+    public mutators (a clear() that loops over erase()) lets other writers in between its steps - the result is not the
+    result of any sequential order of the operations"""
+    ctx.rule(rid, "no public operation of rcu_list is composed of several separately locked mutations", floor=0)
+    from ..rcu import MUTATOR_NAMES
+    for f in ctx.fb.functions(rec=RCU):
+        if f.access != "public" or f.kind in ("ctor", "dtor"):
+            continue
+        calls = [st for st in f.stmts.values() if st["k"] == "CXXMemberCallExpr" and path(f, f.s(st.get("obj"))) in ("this", "*this")
+                 and (st.get("callee") or {}).get("name") in MUTATOR_NAMES + ("clear", "insert", "emplace", "pop_front", "pop_back")]
+        if not calls:
+            continue
+        inloop = [c for c in calls if f.pos_of(c) and any(f.pos_of(c)[0] in body for _h, body in f.loops())]
+        ok = len(calls) == 1 and not inloop
+        ctx.ob(rid, ok, f.loc(calls[0]), "%s performs its mutation in one critical section" % f.name, "" if ok else
+               "%s calls %s %s: each call locks m_write_mutex on its own, so another writer's operation can take effect between "
+               "the steps" % (f.name, ", ".join(sorted({c["callee"]["name"] for c in calls})),
+                              "in a loop" if inloop else "%d times" % len(calls)), fn=f.label, inst=f.qname)
 
 
 def construct(ctx):
